@@ -32,7 +32,13 @@ impl LintPass for OverlappingFunctionCheck {
                     })
                     .collect::<Vec<_>>();
                 // the labels come out of a hash set: report at the one written first
-                let label = labels.iter().min_by(|a, b| a.token.range().cmp(&b.token.range()));
+                // (labels of different files can share a position: the name decides then)
+                let label = labels.iter().min_by(|a, b| {
+                    a.token
+                        .range()
+                        .cmp(&b.token.range())
+                        .then_with(|| a.name.cmp(&b.name))
+                });
 
                 if let Some(l) = label {
                     errors.push(LintError::NodeInManyFunctions(
